@@ -70,7 +70,8 @@ KEY_POOLS = [[1, 2, 3, None, 'a'], [1, 2, 3, None, 'a'],
 def mk_table(rng, names=('k', 'v')):
     n = rng.choice([0, 1, 2, 3, 4, 5])
     pool = rng.choice(KEY_POOLS)
-    return [list(names)] + [[rng.choice(pool), rng.choice([1, 2, 5, 7])] for _ in range(n)]
+    vpool = rng.choice([[1, 2, 5, 7], [1, 2, 5, 7], [1, 2, 5, 7], [1, 2, bytearray(b'ab'), b'ab']])      # bytearray: a chunk file must hand back what went in
+    return [list(names)] + [[rng.choice(pool), rng.choice(vpool)] for _ in range(n)]
 
 
 def run(ctx):
